@@ -425,7 +425,11 @@ def wsgi_forms(B, body, buf):
         res['files'] = sorted([k, canon_val(v)] for k, v in files.items())
         res['post'] = 'ok'
     except Exception as e:
-        res['post'] = type(e).__name__
+        code = getattr(e, 'status_code', None)
+        if type(e).__name__ == 'BodySizeError' or code == 413:
+            res['post'] = 'too_large'       # the in-memory budget (= max_memfile_size), not the chunking
+        else:
+            res['post'] = type(e).__name__ + ('' if code is None else ':%s' % code)
     return res
 
 
@@ -511,7 +515,7 @@ def oracle(case, obs):
                 % (b['prefix'], [len(c) for c in b['chunks']], b['got'], b['one']))
     if case['via'] == 'wsgi':
         w, w1 = obs['wsgi'], obs['wsgi_one']
-        if 'BodySizeError' in (w.get('post'), w1.get('post')):
+        if 'too_large' in (w.get('post'), w1.get('post')):
             return None          # the in-memory budget (= buffer size) is exceeded: C13, not the chunking
         if w != w1:
             return 'Request.forms/files depend on max_memfile_size=%d: %s vs one piece %s' % (case['buf'], w, w1)
